@@ -819,8 +819,10 @@ func (sp *StreamParser) ExecCmd(cb RdbObjExecutor) {
 					args = append(args, fields[j], lp.Next())
 				}
 			} else {
-				numFields = lp.NextInteger()
-				for j := int64(0); j < numFields; j++ {
+				// this entry carries its own fields : the master entry's field count
+				// still applies to the SAMEFIELDS entries after it
+				ownFields := lp.NextInteger()
+				for j := int64(0); j < ownFields; j++ {
 					args = append(args, lp.Next(), lp.Next())
 				}
 			}
